@@ -109,6 +109,17 @@ func (c *Ctx) concatOf(f *FA, v ssa.Value, use ssa.Instruction, depth int) ([]cp
 				}
 			}
 		}
+		// scratch[:n] refilled completely before the use (copy / indexed stores that tile [0, n)): the value is
+		// what was written, whatever the scratch buffer held before
+		if x.Low == nil && x.High != nil && x.Max == nil && isByteSlice(x.Type()) {
+			if _, isK := x.High.(*ssa.Const); !isK {
+				if _, isArr := x.X.(*ssa.Alloc); !isArr {
+					if ps, ok := c.tiledParts(f, x, f.LFOf(x.High), use, true); ok {
+						return ps, true
+					}
+				}
+			}
+		}
 		// a slice literal of explicit octets: []byte{a, b}
 		if al, ok := x.X.(*ssa.Alloc); ok && isByteArrayPtr(al.Type()) && x.Low == nil && x.High == nil {
 			n, _ := arrayLen(al.Type())
@@ -148,7 +159,13 @@ func (c *Ctx) presizedParts(f *FA, mk *ssa.MakeSlice, use ssa.Instruction) ([]cp
 	if !isByteSlice(mk.Type()) {
 		return nil, false
 	}
-	total := f.LFOf(mk.Len)
+	return c.tiledParts(f, mk, f.LFOf(mk.Len), use, false)
+}
+
+// tiledParts: the octets of a buffer value of length total, as the pieces written into it before use. With
+// strict, the buffer's earlier contents are unknown (a reused scratch buffer cut to x[:total]): the pieces must
+// tile it completely, no gap counts as zeros.
+func (c *Ctx) tiledParts(f *FA, mk ssa.Value, total LF, use ssa.Instruction, strict bool) ([]cpart, bool) {
 	type piece struct {
 		off    LF
 		p      cpart
@@ -231,6 +248,9 @@ func (c *Ctx) presizedParts(f *FA, mk *ssa.MakeSlice, use ssa.Instruction) ([]cp
 		return nil, false
 	}
 	if len(pieces) == 0 {
+		if strict {
+			return nil, false
+		}
 		return []cpart{{Kind: "zeros", Len: total}}, true
 	}
 	// tile [0, total)
@@ -262,6 +282,9 @@ func (c *Ctx) presizedParts(f *FA, mk *ssa.MakeSlice, use ssa.Instruction) ([]cp
 				cnt++
 				next = &pieces[i]
 			}
+		}
+		if strict {
+			return nil, false
 		}
 		switch cnt {
 		case 0:
